@@ -272,6 +272,48 @@ theorem originLoop_eq (ext : Ext) (credentialed pnaAny tolInsecure tolPSL : Bool
     funext st raw; exact originStep_eq ext credentialed pnaAny tolInsecure tolPSL st raw
   rw [h]
 
+/-- A list with at most one element is its head. -/
+theorem toList_head {α : Type} (l : List α) (h : l.length ≤ 1) : l = l.head?.toList := by
+  cases l with
+  | nil => rfl
+  | cons a t => cases t with
+    | nil => rfl
+    | cons b u => simp at h
+
+theorem fieldErr_len (es : List CfgErr) : (Validate.fieldErr es).length ≤ 1 := by
+  unfold Validate.fieldErr; split <;> simp
+
+/-- The order in which `newInternalConfig` accumulates the errors of its validators, as translated, is the order of
+`Validate.allErrs` (status, PNA modes, origins, methods, request headers, max-age, response headers). -/
+theorem newInternalConfigOrder_eq (ext : Ext) (cfg : Config) :
+    Gen.GoSrc.newInternalConfigOrder cfg.pna cfg.pnaNoCors (Validate.statusErrs cfg).head? (Validate.originErrs ext cfg).head?
+        (Validate.methodErrs cfg).head? (Validate.reqHdrErrs cfg).head? (Validate.maxAgeErrs cfg).head? (Validate.resHdrErrs cfg).head? =
+      Validate.allErrs ext cfg := by
+  have h1 : (Validate.statusErrs cfg).length ≤ 1 := by unfold Validate.statusErrs; split <;> simp
+  have h2 : (Validate.originErrs ext cfg).length ≤ 1 := by
+    unfold Validate.originErrs
+    split
+    · rename_i he
+      unfold Validate.originsResult Validate.origins
+      simp [he]
+    · exact fieldErr_len _
+  have h3 : (Validate.methodErrs cfg).length ≤ 1 := fieldErr_len _
+  have h4 : (Validate.reqHdrErrs cfg).length ≤ 1 := fieldErr_len _
+  have h5 : (Validate.maxAgeErrs cfg).length ≤ 1 := by unfold Validate.maxAgeErrs; split <;> simp
+  have h6 : (Validate.resHdrErrs cfg).length ≤ 1 := fieldErr_len _
+  unfold Validate.allErrs Validate.pnaErrs
+  conv => rhs; rw [toList_head _ h1, toList_head _ h2, toList_head _ h3, toList_head _ h4, toList_head _ h5, toList_head _ h6]
+  unfold Gen.GoSrc.newInternalConfigOrder
+  cases (Validate.statusErrs cfg).head? <;> cases (Validate.originErrs ext cfg).head? <;> cases (Validate.methodErrs cfg).head? <;>
+    cases (Validate.reqHdrErrs cfg).head? <;> cases (Validate.maxAgeErrs cfg).head? <;> cases (Validate.resHdrErrs cfg).head? <;>
+    cases (cfg.pna && cfg.pnaNoCors) <;> simp
+
+/-- Every copy `icfg.f = cfg.F` of `newInternalConfig` happens when exactly one validator (the status one, which reads none of
+them) has run: `validateOrigins` and the later validators see the flags they read (credentialed, the PNA modes, the two
+tolerance switches). -/
+theorem newInternalConfigCopies_before_origins :
+    Gen.GoSrc.newInternalConfigCopies.length = 5 ∧ ∀ c ∈ Gen.GoSrc.newInternalConfigCopies, c.take 2 = [49, 58] := by decide
+
 /-- The four decision steps of the preflight pipeline, as translated from the working tree, are the modelled ones. -/
 theorem pipeline_eq (icfg : ICfg) (buf : Buf) (reqHdrs : HdrMap) (origin acrm : Bytes) (debug : Bool) :
     Gen.GoSrc.processOriginForPreflight icfg buf origin [origin] = GoRt.result buf (Serve.processOriginForPreflight (modelDec icfg) icfg buf origin) ∧
